@@ -373,6 +373,37 @@ def cse_family():
     return out
 
 
+def sibling_family():
+    """An outer operator over two applications of ONE inner operator that share an operand (distributive-style
+    rules), alone and with a second consumer of the first inner result (a rule that rewrites the inner instruction in
+    place is only sound when nothing else reads it)."""
+    W = ("in", 3)
+    out = []
+    seen = set()
+
+    def emit(es):
+        b = compile_copy(es, 4)
+        if b is None:
+            return
+        t = tuple(b)
+        if t not in seen:
+            seen.add(t)
+            out.append(b)
+
+    for op1 in BINARY:
+        in1 = (op1, X, Y)
+        for in2 in ((op1, X, Z), (op1, Z, Y), (op1, Y, X), (op1, X, Y), (op1, Z, X)):
+            for op2 in BINARY:
+                e = (op2, in1, in2)
+                emit([e])
+                emit([e, (op2, in1, W)])
+                emit([e, ("ADD", W, in1)])
+        for op2 in UNARY:
+            emit([(op2, in1), ("ADD", in1, Z)])
+            emit([(op2, in1), (op1, in1, Z)])
+    return out
+
+
 ADDR9 = [C(0), C(1), C(31), C(32), C(33), X, ("ADD", C(1), X), ("ADD", C(32), X), Y]
 ADDR6 = [C(0), C(1), C(32), X, ("ADD", C(1), X), Y]
 KEYS4 = [C(0), C(1), X, Y]
